@@ -89,6 +89,24 @@ pub fn centry() -> impl Strategy<Value = CEntry> {
         .prop_map(|(list_extra, obj_name, status, val_time, unit, scaler, value, sig)| CEntry { list_extra, obj_name, status, val_time, unit, scaler, value, sig })
 }
 
+/// Degenerate list entries: empty or tiny object names, (almost) all optional fields absent, the smallest
+/// values - down to the 8-byte entry `77 01 01 01 01 01 01 01` - so that lists with many entries in very
+/// few bytes occur (a reader that relates a declared count to the remaining input sees its extreme here).
+pub fn centry_min() -> impl Strategy<Value = CEntry> {
+    let tiny_value = prop_oneof![
+        4 => Just(CValue::Bytes(COctet::plain(&[]))),
+        1 => any::<u8>().prop_map(CValue::Bool),
+        1 => any::<u8>().prop_map(|v| CValue::Uint(CUint::w(v as u64, 1))),
+        1 => any::<i8>().prop_map(|v| CValue::Int(CInt { value: v as i64, width: 1, extra: 0 })),
+        1 => octet(3).prop_map(CValue::Bytes),
+    ];
+    (prop_oneof![3 => Just(0usize), 1 => 1usize..7], any::<u64>(), opt(0.05, cuint(1, 1)), opt(0.05, cuint(1, 1)), opt(0.05, cint(1, 1)), tiny_value, opt(0.05, octet(2))).prop_map(|(n, seed, status, unit, scaler, value, sig)| {
+        let mut name = Vec::new();
+        crate::gen::payload::fill(0, seed, n, &mut name);
+        CEntry { list_extra: 0, obj_name: COctet::plain(&name), status, val_time: None, unit, scaler, value, sig }
+    })
+}
+
 pub fn entries(tier_big: bool) -> BoxedStrategy<Vec<CEntry>> {
     if tier_big {
         prop_oneof![
@@ -97,6 +115,7 @@ pub fn entries(tier_big: bool) -> BoxedStrategy<Vec<CEntry>> {
             4 => vec(centry(), 14..19),   // crosses 15/16: two-byte list TLF
             1 => vec(centry(), 19..60),
             1 => vec(centry(), 60..250),  // interior list lengths
+            2 => vec(centry_min(), 1..60),
             1 => vec(centry(), 250..262), // crosses 255/256: three-nibble list TLF
         ]
         .boxed()
@@ -107,6 +126,7 @@ pub fn entries(tier_big: bool) -> BoxedStrategy<Vec<CEntry>> {
             24 => vec(centry(), 14..19),
             8 => vec(centry(), 19..41),
             1 => vec(centry(), 41..250),    // interior list lengths
+            12 => vec(centry_min(), 1..40),
             1 => vec(centry(), 250..262),   // rare in the quick tier: messages beyond 4 KiB
         ]
         .boxed()
